@@ -10,7 +10,7 @@
                        parse_file (pr_file c1 []) = parse_file (pr_file c2 [])
    What is proved is listed below, production by production (the theorems C15_roundtrip_partial_xxx); the productions that are
    not listed (see fam/idl/NOTES.md) are carried by the three-way correspondence of pv/props/c15.py. *)
-From PVIdl Require Import Comb Ast Parser Print Proofs.Total Proofs.RoundTok Proofs.RoundTy.
+From PVIdl Require Import Comb Ast Parser Print Proofs.Total Proofs.RoundTok Proofs.RoundTy Proofs.RoundItem.
 
 (* identifiers, followed by anything that does not continue a word *)
 Theorem C15_roundtrip_partial_ident : forall s k,
@@ -88,3 +88,12 @@ Theorem C15_layout_free_partial_type : forall lf whole1 whole2 df t1 t2 k1 k2,
   exists a, p_type lf df (pr_type t1 k1) = POk k1 a /\ p_type lf df (pr_type t2 k2) = POk k2 a.
 Proof. exact type_layout_free. Qed.
 Print Assumptions C15_layout_free_partial_type.
+
+(* the typedef production (typedef <blank> T <blank> alias [blank] [separator]) for simple types, no annotation list;
+   [declfollow]: what follows is not a blank start, a word character, a separator or an annotation list *)
+Theorem C15_roundtrip_partial_typedef : forall lf whole, (length whole < lf)%nat -> forall df c k,
+  wf_typedef c = true -> simple_type (ctd_type c) = true -> ctd_anns c = None -> (type_depth (ctd_type c) < df)%nat ->
+  declfollow lf k -> sfx (pr_typedef c k) whole ->
+  p_typedef lf df (pr_typedef c k) = POk k (erase_typedef c).
+Proof. exact rt_typedef. Qed.
+Print Assumptions C15_roundtrip_partial_typedef.
